@@ -942,7 +942,7 @@ func (c *Ctx) rewriterSubstitutions() map[string][]string {
 
 func init() {
 	register("C05", &propDef{
-		explain: "Discipline rules behind the register optimisation, decided on SSA for all paths: acquire/release typestate of registers on long-lived environments (phi-sensitive path search), the capacity test before MakeRegister, an interprocedural may-be-*Register taint analysis from the evaluator's results to every storage sink (array elements, map pairs, bindings) with object.Value/CopyRegister as sanitisers, two-value assertions on rewriter results inside ast.Modify, and the variable fallback when a register cannot be used. These are necessary conditions for output equality with registers on/off; equality of outputs itself is a value property and is not decided. Also: ReleaseRegister only receives a register that was acquired (wrapper summaries + HasRegisters guards on the same environment, deferred closures included).",
+		explain: "Discipline rules behind the register optimisation, decided on SSA for all paths: acquire/release typestate of registers on long-lived environments (phi-sensitive path search), the capacity test before MakeRegister, an interprocedural may-be-*Register taint analysis from the evaluator's results to every storage sink (array elements, map pairs, bindings) with object.Value/CopyRegister as sanitisers, two-value assertions on rewriter results inside ast.Modify, and the variable fallback when a register cannot be used. These are necessary conditions for output equality with registers on/off; equality of outputs itself is a value property and is not decided. Also: ReleaseRegister only receives a register that was acquired (wrapper summaries + HasRegisters guards on the same environment, deferred closures included). Shares C13.R1 (ast.Modify never writes into its input, including through a child list a struct copy still shares).",
 		assume:  []string{"containers and bindings hold no *Register initially (the invariant the taint rule maintains)", "calls through function values are not followed for taint (extension callbacks receive arguments already copied by evalExpressions)"},
 		run:     runC05,
 	})
